@@ -12,7 +12,7 @@ def spec(tier):
         # outcomes: symbolic durations/memory (OOM), arrival ticks and suspension tick
         for (q1, q2) in ([(0, 0)] + ([(P - 1, 0), (P - 1, P - 1)] if (P > 1 and (th or P == 2)) else [])):
             obs.append(CH(name=f"outcomes_P{P}_q{q1}{q2}", harness="c09.ledger",
-                          sym=dict(t1=I(0, 3), t2=I(0, 3), d0=I(1, 2), m0=I(1, 12), m1=I(1, 12), sus_t=I(-1, 4)),
+                          sym=dict(t1=I(0, 2), t2=I(0, 3) if th else I(1, 2), d0=I(1, 2), m0=I(9, 12), m1=I(9, 12), sus_t=I(-1, 3)),
                           fixed=dict(P=P, q0=0, q1=q1, q2=q2, d1=1, d2=2, m2=1, sus_pool=0), timeout=900))
     tsym = dict(q1=I(-1, 3), t1=I(0, 3), d0=I(1, 2), m0=I(1, 12), sus_t=I(-1, 4))
     tfix = dict(P=2, q0=0, q2=1, t2=1, d1=1, d2=2, m1=1, m2=1, sus_pool=0)
